@@ -2359,6 +2359,40 @@ let gray_scott k m p3 nD f kr u0 u1 =
       (p3 u0 u1 u1 k0)) :: ((fun k0 ->
     k.oadd (k.omul (k.oopp (k.oadd f kr)) (m (m u1) k0)) (p3 u0 u1 u1 k0)) :: [])
 
+(** val deriv_mode : ops -> nat -> car list -> car -> car list **)
+
+let deriv_mode k order d u =
+  map (fun dc0 -> k.omul (fpow k dc0 order) u) d
+
+(** val poisson_mode : ops -> car -> car -> car **)
+
+let poisson_mode k lam f =
+  k.oopp (k.omul (if k.oeqb lam k.o0 then k.o0 else k.odiv k.o1 lam) f)
+
+(** val divm : ops -> car list -> car list -> car **)
+
+let divm k d u =
+  fsum k (map2 (fun dc0 uc -> k.omul dc0 uc) d u)
+
+(** val lapm : ops -> car list -> car **)
+
+let lapm k d =
+  fsum k (map (fun dc0 -> k.omul dc0 dc0) d)
+
+(** val leray_mode : ops -> car list -> car list -> car list **)
+
+let leray_mode k d u =
+  let inv = if k.oeqb (lapm k d) k.o0 then k.o0 else k.odiv k.o1 (lapm k d) in
+  let p = k.oopp (k.omul inv (divm k d u)) in
+  map2 (fun dc0 uc -> k.oadd uc (k.omul dc0 p)) d u
+
+(** val make_incompressible_mode : ops -> car list -> car list -> car list **)
+
+let make_incompressible_mode k d u =
+  let inv = if k.oeqb (lapm k d) k.o0 then k.o1 else k.odiv k.o1 (lapm k d) in
+  let p = k.omul inv (divm k d u) in
+  map2 (fun dc0 uc -> k.osub uc (k.omul dc0 p)) d u
+
 (** val aff : z -> z -> z -> z **)
 
 let aff a b u =
@@ -2765,10 +2799,15 @@ let run_sym a =
               (match p2 with
                | XI p3 ->
                  (match p3 with
+                  | XI _ -> poly_sym cQ (crs p) d0
+                  | XO p4 ->
+                    (match p4 with
+                     | XH ->
+                       gip_sym cQ (crs (skipn (S O) p)) (qn (getq p O)) d0
+                     | _ -> poly_sym cQ (crs p) d0)
                   | XH ->
                     sym_gray_scott cQ (g O) (g (S O)) (qn (getq p (S (S O))))
-                      d0
-                  | _ -> poly_sym cQ (crs p) d0)
+                      d0)
                | XO p3 ->
                  (match p3 with
                   | XH -> sym_navier_stokes cQ (g O) (g (S O)) d0
@@ -2794,9 +2833,13 @@ let run_sym a =
               (match p2 with
                | XI p3 ->
                  (match p3 with
+                  | XI _ -> poly_sym cQ (crs p) d0
+                  | XO p4 ->
+                    (match p4 with
+                     | XH -> laplace_sym cQ (qn (getq p O)) d0
+                     | _ -> poly_sym cQ (crs p) d0)
                   | XH ->
-                    sym_cahn_hilliard cQ (g O) (g (S O)) (g (S (S O))) d0
-                  | _ -> poly_sym cQ (crs p) d0)
+                    sym_cahn_hilliard cQ (g O) (g (S O)) (g (S (S O))) d0)
                | XO p3 ->
                  (match p3 with
                   | XH -> sym_ks cQ (g O) (g (S O)) d0
@@ -3085,6 +3128,44 @@ let run_term a =
   in
   put_cx (flat_map (fun f -> map f band) outs)
 
+(** val run_ops : z -> q list -> q list **)
+
+let run_ops sub0 a =
+  let cxa = fun i -> { re = (qqc (getq a i)); im = (qqc (getq a (S i))) } in
+  (match sub0 with
+   | Zpos p ->
+     (match p with
+      | XI p0 ->
+        (match p0 with
+         | XH ->
+           let d = qn (getq a (S O)) in
+           let d0 =
+             dop cQ ciQ (cr (getq a (S (S O))))
+               (map qz (firstn d (skipn (S (S (S O))) a)))
+           in
+           put_cx
+             (deriv_mode cQ (qn (getq a O)) d0
+               (Obj.magic cxa (add (S (S (S O))) d)))
+         | _ -> [])
+      | XO p0 ->
+        (match p0 with
+         | XH ->
+           let d = qn (getq a (S O)) in
+           let d0 =
+             dop cQ ciQ (cr (getq a (S (S O))))
+               (map qz (firstn d (skipn (S (S (S O))) a)))
+           in
+           let u = take_cx (skipn (add (S (S (S O))) d) a) in
+           put_cx
+             (if qb (getq a O)
+              then make_incompressible_mode cQ d0 u
+              else leray_mode cQ d0 u)
+         | _ -> [])
+      | XH ->
+        put_cx
+          ((poisson_mode cQ (Obj.magic cxa O) (Obj.magic cxa (S (S O)))) :: []))
+   | _ -> [])
+
 (** val run : z -> q list -> q list **)
 
 let run id a =
@@ -3106,7 +3187,8 @@ let run id a =
                                 | _ -> [])
                   | _ -> [])
                | _ -> [])
-            | _ -> [])
+            | XO _ -> []
+            | XH -> run_ops sub0 a)
          | XH ->
            (match sub0 with
             | Zpos p1 -> (match p1 with
